@@ -4,7 +4,7 @@ cd /verif
 fail=0
 for d in seeded/*/; do
   s=$(basename $d); p=${s%-*}
-  ( out=$(HGV_PATCH=$(readlink -f $d/patch.diff) HGV_EVIDENCE_DIR=/tmp/hgv_try_evidence python3-vt -m hgv check $p 2>&1); n=$(echo "$out" | grep -c "^VIOLATION"); e=$(echo "$out" | grep -c "^ANALYSIS-ERROR")
+  ( out=$(HGV_PATCH=$(readlink -f $d/patch.diff) HGV_EVIDENCE_DIR=/tmp/hgv_try_evidence_$BASHPID python3-vt -m hgv check $p 2>&1); n=$(echo "$out" | grep -c "^VIOLATION"); e=$(echo "$out" | grep -c "^ANALYSIS-ERROR")
     if [ "$n" = "0" ]; then echo "MISSED $s (errors=$e)"; fi ) &
   while [ $(jobs -r | wc -l) -ge 8 ]; do sleep 0.5; done
 done; wait; echo "verify_seeds done"
